@@ -203,8 +203,8 @@ class HDDMWConfig(BaseHDDMConfig):
         :type value: float
         :raises ValueError: Value error exception
         """
-        if not 0.0 <= value <= 1.0:
-            raise ValueError("lambda_ must be in the range [0, 1].")
+        if not 0.0 < value <= 1.0:
+            raise ValueError("lambda_ must be in the range (0, 1].")
         self._lambda_ = value
 
 
